@@ -382,26 +382,27 @@ def desugar_option_map(body, recv, item):
 def desugar_map_collect(body, recv, ty, inv, item):
     """`recv.into_iter().map(|p| e).collect()` -> explicit loop pushing `e` for every element, in order."""
     m = mask(body)
-    pat = re.compile(re.escape(recv) + r"\s*\.into_iter\(\)\s*\.map\s*\(\s*\|([^|]*)\|")
+    pat = re.compile(re.escape(recv) + r"\s*\.(into_iter|iter)\(\)\s*\.map\s*\(\s*\|([^|]*)\|")
     ms = list(pat.finditer(m))
     if len(ms) != 1:
         raise AnchorLost("%s: `%s.into_iter().map(|..| ..)` found %d times" % (item.ident, recv, len(ms)))
     mm = ms[0]
+    by_ref = mm.group(1) == "iter"
     par = m.find("(", m.find(".map", mm.start()))
     s2 = Src("<mem>", body)
     close = s2.match_close(par)
     tail = re.match(r"\s*\.collect\(\)", m[close + 1:])
     if not tail:
         raise AnchorLost("%s: map(..) is not followed by .collect()" % item.ident)
-    param = body[mm.start(1):mm.end(1)].strip()
+    param = body[mm.start(2):mm.end(2)].strip()
     expr = body[mm.end():close].strip()
     cl = count_clauses(inv)
     for k in cl:
         item.clauses[k] += cl[k]
     item.carrying += cl["invariant"]
     new = ("{ let mut verif_out: Vec<%s> = Vec::new(); for %s in verif_it: %s\n%s\n{ verif_out.push(%s); } verif_out }"
-           % (ty, param, recv, inv, expr))
-    item.rewrites.append({"old": body[mm.start():close + 1 + tail.end()], "new": "explicit loop", "note": "std-equivalent: Vec into_iter().map(closure).collect() desugared to the loop it denotes"})
+           % (ty, param, recv + (".iter()" if by_ref else ""), inv, expr))
+    item.rewrites.append({"old": body[mm.start():close + 1 + tail.end()], "new": "explicit loop", "note": "std-equivalent: Vec into_iter()/iter().map(closure).collect() desugared to the loop it denotes"})
     return body[:mm.start()] + new + body[close + 1 + tail.end():]
 
 
@@ -799,6 +800,8 @@ class Gen:
                 i = self.do_peg(toks[1:], i + 1, lines)
             elif d == "pegguard":
                 i = self.do_pegguard(toks[1:], i + 1, lines)
+            elif d == "lemma":
+                i = self.do_lemma(toks[1:], i + 1, lines)
             else:
                 raise SystemExit("unknown directive %s in %s" % (d, self.unit_path))
 
@@ -824,6 +827,7 @@ class Gen:
         old = []
         new = []
         note = ""
+        injective = {}
         while i < n:
             st = lines[i].strip()
             if st.startswith("//@"):
@@ -925,6 +929,13 @@ class Gen:
                     sigsub.append((toks[1], toks[2]))
                     i += 1
                     continue
+                if d == "injective":
+                    # //@injective [param=<expr over param> ...]: generate the lemma "two sets of captured parts with the
+                    # same result node are the same parts" (by default compared as a whole, or via the given expression)
+                    injective = dict(t.split("=", 1) for t in toks[1:] if "=" in t)
+                    injective["__on"] = True
+                    i += 1
+                    continue
                 if d in terminators or d in ("method",):
                     term = d
                     break
@@ -938,7 +949,7 @@ class Gen:
             i += 1
         for k in loops:
             loops[k]["text"] = "\n".join(loops[k].pop("_buf"))
-        return "\n".join(contract), {"loops": loops, "repls": repls, "sigsub": sigsub, "befores": befores, "annotates": annotates, "desugars": desugars, "rewrites_all": rewrites_all, "rewrites_rx": rewrites_rx, "map_collects": map_collects,
+        return "\n".join(contract), {"loops": loops, "repls": repls, "sigsub": sigsub, "befores": befores, "annotates": annotates, "desugars": desugars, "rewrites_all": rewrites_all, "rewrites_rx": rewrites_rx, "map_collects": map_collects, "injective": injective,
                                     "places": {k: "\n".join(v) for k, v in places.items()}}, i, term
 
     def vac(self, contract, ident=None):
@@ -986,6 +997,32 @@ class Gen:
             it.name = kv.get("name", "act")
         self.items.append(it)
         return it
+
+    def do_lemma(self, toks, i, lines):
+        """//@lemma <name> [props=..] ... //@end : a hand-written proof fn that states a property over the contracts of
+        the unit (e.g. injectivity of a grammar action's result in its captured parts). It is an item of its own: a
+        failed postcondition of the lemma is a failed obligation of the property."""
+        pos, kv = parse_kv(toks)
+        name = pos[0]
+        body = []
+        while i < len(lines) and lines[i].strip() != "//@end":
+            body.append(lines[i])
+            i += 1
+        text = "\n".join(body)
+        rel = "specs/units/" + os.path.basename(self.unit_path)
+        # a property lemma says nothing about panics or termination: it never serves C04
+        props = [p_ for p_ in (kv["props"].split(",") if kv.get("props") else list(self.props_default)) if p_ != "C04"]
+        it = Item(self.unit + "/lemma:" + name, "lemma", props, rel, [i - len(body) + 1, i], sha(text))
+        it.name = name
+        it.body_text = mask(text)
+        cm = re.search(r"\)\s*\n(.*?)\n\{", text, re.S)
+        cl = count_clauses(cm.group(1) if cm else text)
+        for k in cl:
+            it.clauses[k] += cl[k]
+        self.items.append(it)
+        self.emit("// ---- property lemma %s (hand-written, over the contracts above)" % name)
+        it.gen_lines = self.emit(self.vac(text, "lemma:" + name))
+        return i + 1
 
     def do_fn(self, toks, i, lines):
         pos, kv = parse_kv(toks)
@@ -1083,7 +1120,8 @@ class Gen:
         params = kv.get("params", "")
         pnames = [p.split(":")[0].strip() for p in split_depth0(params, ",") if p.strip()]
         extra_params = [p for p in kv.get("ruleargs", "").split(",") if p]
-        if sorted(pnames) != sorted(labels + extra_params):
+        # the captured values, in the order the grammar binds them: a relabelled or reordered pattern is a lost anchor
+        if pnames != labels + extra_params and pnames != extra_params + labels:
             raise AnchorLost("peg rule %s alt %d: labels in grammar %s != labels in spec %s" % (rule, alt, labels, pnames))
         ret = kv.get("ret", r["ret"])
         ret = ret.replace("&'input ", "&")
@@ -1091,6 +1129,11 @@ class Gen:
             ret = "Result<%s, &'static str>" % ret
         contract, extra, i, term = self.collect(i, lines)
         fname = kv.get("name", "act_%s_%d" % (rule, alt))
+        # discipline on the specification itself: a grammar action's contract must say where every captured part
+        # ends up ("nothing written is dropped"); a capture that the contract never mentions is a hole in the spec
+        unmentioned = [p_ for p_ in pnames if not re.search(r"\b" + re.escape(p_) + r"\b", mask(contract))]
+        if unmentioned and "partial" not in flags:
+            raise SystemExit("%s: contract of grammar action %s alt %d does not mention captured part(s) %s" % (self.unit_path, rule, alt, unmentioned))
         pid_ = "peg:%s#%d" % (rule, alt) + (".%s" % kv["block"] if kv.get("block") else "")
         item = self.new_item(pid_, "peg", kv, rel, s, bs, be)
         cl = count_clauses(contract)
@@ -1120,7 +1163,41 @@ class Gen:
         sig = "pub fn %s(%s) -> (%s: %s)" % (fname, params, kv.get("retname", "r"), ret)
         c = self.vac(contract, pid_)
         txt = sig + "\n" + (c.rstrip("\n") + "\n" if c.strip() else "") + "{" + body + "}\n"
+        inj = extra.get("injective") or {}
+        lemma_txt = None
+        if inj.get("__on") and pnames:
+            # the ensures clauses as a relation post(parts, r); lemma: post(a, r) && post(b, r) ==> a == b (part by part)
+            plist = [(p_.split(":", 1)[0].strip(), p_.split(":", 1)[1].strip()) for p_ in split_depth0(params, ",") if p_.strip()]
+            rname = kv.get("retname", "r")
+            ens = [e for e in count_clauses(contract)["ensures"]]
+
+            def rename(text, suffix):
+                for (pn, _) in plist:
+                    text = re.sub(r"(?<![\w.])" + re.escape(pn) + r"\b(?!\s*:)", pn + suffix, text)
+                return text
+            def key(pn, pt):
+                # vectors are compared by their contents (the view), everything else as a whole, unless overridden
+                return inj.get(pn, pn + "@" if pt.startswith("Vec<") else pn)
+            concl = ["%s == %s" % (rename(key(pn, pt), "_1"), rename(key(pn, pt), "_2")) for (pn, pt) in plist]
+            lname = "lemma_keeps_%s" % fname
+            sig_params = ", ".join("%s: %s" % (pn, pt) for pn, pt in plist)
+            lemma_txt = ("/// the postcondition of %s as a relation between the captured parts and the node built\n"
+                         "pub open spec fn post_%s(%s%s%s: %s) -> bool {\n    &&& %s\n}\n"
+                         "pub proof fn %s(%s, %s, %s: %s)\n    requires\n        post_%s(%s%s%s), post_%s(%s%s%s),\n    ensures\n        %s,\n{\n}\n") % (
+                fname, fname, sig_params, ", " if plist else "", rname, ret, "\n    &&& ".join("(" + e + ")" for e in ens),
+                lname, ", ".join("%s_1: %s" % (pn, pt) for pn, pt in plist), ", ".join("%s_2: %s" % (pn, pt) for pn, pt in plist), rname, ret,
+                fname, ", ".join(pn + "_1" for pn, _ in plist), ", " if plist else "", rname,
+                fname, ", ".join(pn + "_2" for pn, _ in plist), ", " if plist else "", rname,
+                ",\n        ".join(concl))
         item.gen_lines = self.emit(txt)
+        if lemma_txt:
+            lit = Item(self.unit + "/lemma:keeps_" + fname, "lemma", [p_ for p_ in item.props if p_ != "C04"], rel, list(item.src_lines), sha(lemma_txt))
+            lit.name = "lemma_keeps_" + fname
+            lit.body_text = mask(lemma_txt)
+            lit.clauses["ensures"] += [norm_ws(c_) for c_ in concl]
+            self.items.append(lit)
+            self.emit("// ---- property lemma (generated from the contract above): no captured part of %s alt %d is dropped" % (rule, alt))
+            lit.gen_lines = self.emit(self.vac(lemma_txt, "lemma:keeps_" + fname))
         return i + 1
 
 
